@@ -1,6 +1,6 @@
 (** Safety invariant of the Chase-Lev work-stealing deque (fixed-capacity container) on the
     step-level model of Model/ChaseDefs.v: structural invariant, thief-read lemma and conservation
-    of the multiset of values.  No axioms, no admits. *)
+    of the multiset of values.  Every statement is closed under the global context. *)
 From Coq Require Import NArith ZArith List Bool Lia Permutation PeanoNat.
 From XV Require Import Base.Word Conc.Lts Conc.Ev gen.GrowingArrayGen Model.ChaseDefs.
 Import ListNotations.
@@ -71,21 +71,535 @@ Lemma pow2_64 : 2 ^ 64 = 18446744073709551616.
 Proof. reflexivity. Qed.
 
 Lemma wadd1 x : x <= 2 ^ 62 -> wadd 64 x 1 = x + 1.
-Proof. intros H. apply wadd_small. rewrite pow2_62 in H. rewrite pow2_64. lia. Qed.
+Proof. intros H. apply wadd_small. lia. Qed.
 
 Lemma wsub_le a b : b <= a -> a <= 2 ^ 62 -> wsub 64 a b = a - b.
-Proof. intros H1 H2. apply wsub_small; [exact H1|]. rewrite pow2_62 in H2. rewrite pow2_64. lia. Qed.
+Proof. intros H1 H2. apply wsub_small; [exact H1|]. lia. Qed.
 
+Lemma pow2_63 : 2 ^ (64 - 1) = 9223372036854775808.
+Proof. reflexivity. Qed.
+Lemma sval_small x : x < 9223372036854775808 -> sval 64 x = Z.of_N x.
+Proof. intros H. unfold sval. rewrite pow2_63. destruct (N.ltb_spec x 9223372036854775808); [reflexivity|lia]. Qed.
+Lemma sval_big x : 9223372036854775808 <= x -> sval 64 x = (Z.of_N x - 18446744073709551616)%Z.
+Proof. intros H. unfold sval. rewrite pow2_63, pow2_64. destruct (N.ltb_spec x 9223372036854775808); [lia|reflexivity]. Qed.
 Lemma sdiff_pos_lt b t : b <= 2 ^ 62 -> t <= 2 ^ 62 -> sdiff_pos b t = true -> t < b.
 Proof.
-  intros Hb Ht H. rewrite pow2_62 in *. unfold sdiff_pos in H. apply negb_true_iff in H.
-  unfold sle in H. apply Z.leb_gt in H.
+  intros Hb Ht H. rewrite pow2_62 in Hb, Ht. unfold sdiff_pos in H. apply negb_true_iff in H.
+  unfold sle in H. apply Z.leb_gt in H. rewrite (sval_small 0) in H by lia.
   destruct (N.lt_ge_cases t b) as [L|L]; [exact L|exfalso].
   destruct (N.eq_dec t b) as [->|Hne].
   - rewrite wsub_small in H by (rewrite ?pow2_64; lia).
-    rewrite N.sub_diag in H. vm_compute in H. discriminate.
+    rewrite N.sub_diag in H. rewrite (sval_small 0) in H by lia. lia.
   - rewrite wsub_wrap in H by (rewrite ?pow2_64; lia).
-    change (sval 64 0) with 0%Z in H. unfold sval in H. change (2 ^ (64 - 1)) with 9223372036854775808 in H.
-    rewrite pow2_64 in H.
-    destruct (N.ltb_spec (b + 18446744073709551616 - t) 9223372036854775808); lia.
+    rewrite pow2_64 in H. rewrite sval_big in H by lia. lia.
+Qed.
+
+(** * 4. The invariant *)
+
+(** content of the circular array at (unwrapped) index [i] *)
+Definition cell (c : N) (m : N -> N -> N) (i : N) : N := m 0 (N.land i (c - 1)).
+
+(** values stored at the live indices [top, bottom) *)
+Definition live (st : state) (c : N) : list N :=
+  map (fun i => mem (sh st) 0 (N.land i (c - 1))) (index_range (top (sh st)) (bottom (sh st))).
+
+(** the owner is in the tail of try_pop: [bottom] has been decremented and not yet restored *)
+Definition in_pop_tail (p : pc) : bool :=
+  match p with Po4 _ | Po5 _ _ | Po6 _ _ | Po7 _ _ _ | Po8 _ _ => true | _ => false end.
+
+(** logical bottom: one past the last index that still belongs to the abstract deque *)
+Definition lbot (B : N) (p : pc) : N := if in_pop_tail p then B + 1 else B.
+
+(** abstract deque content, oldest first *)
+Definition abs (c : N) (st : state) : list N :=
+  map (cell c (mem (sh st))) (index_range (top (sh st)) (lbot (bottom (sh st)) (th st owner))).
+
+Definition plen (st : state) : N := N.of_nat (length (g_pushed st)).
+
+Definition thief_pc (p : pc) : Prop :=
+  match p with
+  | Idle | Begin OSteal | St1 | St2 _ | St4 _ _ | St5 _ _ => True
+  | _ => False
+  end.
+
+(** facts about the locals of a thread inside try_steal *)
+Definition thief_ok (T Bl : N) (M : N -> N) (p : pc) : Prop :=
+  match p with
+  | St2 t => t <= T
+  | St4 t _ => t <= T /\ (t = T -> t < Bl)
+  | St5 t x => t <= T /\ (t = T -> t < Bl /\ x = M t)
+  | St3 _ => False
+  | _ => True
+  end.
+
+(** facts about the locals of the owner inside try_push / try_pop *)
+Definition owner_ok (c T B : N) (M : N -> N) (p : pc) : Prop :=
+  match p with
+  | Pu2 _ b => b = B
+  | Pu5 _ b _ => b = B /\ b < T + c
+  | Pu6 v b => b = B /\ b < T + c /\ M b = v
+  | Po2 b => b = B
+  | Po3 b => b = B /\ 0 < b
+  | Po5 b _ => b = B
+  | Po6 b x => b = B /\ x = M b
+  | Po7 b x tp => b = B /\ x = M b /\ tp = b /\ tp <= T
+  | Po8 nb _ => nb = B + 1 /\ T = nb
+  | Pu3 _ _ _ | PuCanGrow _ _ _ | PuGrow0 _ _ _ | PuGrowLd _ _ _ _ | PuGrowSt _ _ _ _ _
+  | PuGrowEnd _ _ _ | Pu4 _ _ | Po4 _ | St3 _ => False
+  | _ => True
+  end.
+
+Record Inv (c : N) (st : state) : Prop := mkInv {
+  i_own : forall t, t <> owner -> thief_pc (th st t);
+  i_T_le : top (sh st) <= lbot (bottom (sh st)) (th st owner);
+  i_cap : lbot (bottom (sh st)) (th st owner) <= top (sh st) + c;
+  i_P : lbot (bottom (sh st)) (th st owner) <= plen st;
+  i_opc : owner_ok c (top (sh st)) (bottom (sh st)) (cell c (mem (sh st))) (th st owner);
+  i_tpc : forall t, thief_ok (top (sh st)) (lbot (bottom (sh st)) (th st owner)) (cell c (mem (sh st))) (th st t);
+  i_cons : Permutation (g_taken st ++ abs c st) (g_pushed st)
+}.
+
+Lemma thief_pc_lbot B p : thief_pc p -> lbot B p = B.
+Proof. destruct p; cbn; try contradiction; try reflexivity. Qed.
+
+Lemma thief_pc_owner_ok c T B M p : thief_pc p -> owner_ok c T B M p.
+Proof. destruct p; cbn; try contradiction; auto. Qed.
+
+Lemma thief_ok_mono T Bl M T' Bl' M' p :
+  thief_ok T Bl M p -> T <= T' ->
+  (T' = T -> T < Bl -> T < Bl' /\ M' T = M T) ->
+  thief_ok T' Bl' M' p.
+Proof.
+  intros H HT HF. destruct p; cbn in *; auto.
+  - lia.
+  - destruct H as [H1 H2]. split; [lia|]. intros E.
+    assert (E' : T' = T) by lia. rewrite E' in E. specialize (H2 E).
+    destruct (HF E') as [F1 F2]; [lia|]. lia.
+  - destruct H as [H1 H2]. split; [lia|]. intros E.
+    assert (E' : T' = T) by lia. rewrite E' in E. destruct (H2 E) as [H3 H4].
+    destruct (HF E') as [F1 F2]; [lia|]. subst t. split; [lia|]. congruence.
+Qed.
+
+Lemma owner_ok_mono c T B M T' p :
+  owner_ok c T B M p -> T <= T' -> T' <= lbot B p -> owner_ok c T' B M p.
+Proof.
+  intros H HT HB. destruct p; cbn in *; auto; lia.
+Qed.
+
+(** generic preservation lemma: thread [t] moves to [p'], the shared state becomes [s'] *)
+Lemma inv_step_gen c st t p' s' n' gp' gt' :
+  Inv c st ->
+  (t <> owner -> thief_pc p') ->
+  forall po', po' = upd (th st) t p' owner ->
+  top (sh st) <= top s' ->
+  top s' <= lbot (bottom s') po' ->
+  lbot (bottom s') po' <= top s' + c ->
+  lbot (bottom s') po' <= N.of_nat (length gp') ->
+  (top s' = top (sh st) -> top (sh st) < lbot (bottom (sh st)) (th st owner) ->
+   top (sh st) < lbot (bottom s') po' /\
+   cell c (mem s') (top (sh st)) = cell c (mem (sh st)) (top (sh st))) ->
+  owner_ok c (top s') (bottom s') (cell c (mem s')) po' ->
+  thief_ok (top s') (lbot (bottom s') po') (cell c (mem s')) p' ->
+  Permutation (gt' ++ map (cell c (mem s')) (index_range (top s') (lbot (bottom s') po'))) gp' ->
+  Inv c (mkSt s' (upd (th st) t p') n' gp' gt').
+Proof.
+  intros HI Hth po' Hpo HT H1 H2 H3 HF Ho Hp HC. subst po'.
+  constructor; cbn [sh th g_pushed g_taken]; unfold abs, plen; cbn [sh th g_pushed g_taken]; auto.
+  - intros t' Ht'. unfold upd. destruct (Nat.eqb_spec t' t) as [->|Hne]; [auto|apply (i_own _ _ HI); auto].
+  - intros t'. unfold upd at 2. destruct (Nat.eqb_spec t' t) as [->|Hne]; [exact Hp|].
+    eapply thief_ok_mono; [apply (i_tpc _ _ HI t')|exact HT|exact HF].
+Qed.
+
+(** special case: only the program counter of [t] changes *)
+Lemma inv_step_pc c st t p' n' :
+  Inv c st ->
+  (t <> owner -> thief_pc p') ->
+  in_pop_tail p' = in_pop_tail (th st t) ->
+  (t = owner -> owner_ok c (top (sh st)) (bottom (sh st)) (cell c (mem (sh st))) p') ->
+  thief_ok (top (sh st)) (lbot (bottom (sh st)) (th st owner)) (cell c (mem (sh st))) p' ->
+  Inv c (mkSt (sh st) (upd (th st) t p') n' (g_pushed st) (g_taken st)).
+Proof.
+  intros HI Hth Hpt Ho Hp.
+  assert (HL : lbot (bottom (sh st)) (upd (th st) t p' owner) = lbot (bottom (sh st)) (th st owner)).
+  { unfold upd. destruct (Nat.eqb_spec owner t) as [<-|Hne]; [|reflexivity].
+    unfold lbot. rewrite Hpt. reflexivity. }
+  apply inv_step_gen with (po' := upd (th st) t p' owner); try rewrite HL.
+  - exact HI.
+  - exact Hth.
+  - reflexivity.
+  - lia.
+  - apply (i_T_le _ _ HI).
+  - apply (i_cap _ _ HI).
+  - apply (i_P _ _ HI).
+  - intros _ H. split; [exact H|reflexivity].
+  - unfold upd. destruct (Nat.eqb_spec owner t) as [<-|Hne]; [auto|apply (i_opc _ _ HI)].
+  - exact Hp.
+  - apply (i_cons _ _ HI).
+Qed.
+
+(** * 5. Small facts used in the step proof *)
+
+Lemma cell_set_same c m b v : cell c (mset m 0 (N.land b (c - 1)) v) b = v.
+Proof. unfold cell, mset. rewrite !N.eqb_refl. reflexivity. Qed.
+
+Lemma cell_set_other k m b v i :
+  i < b -> b < i + 2 ^ k -> cell (2 ^ k) (mset m 0 (N.land b (2 ^ k - 1)) v) i = cell (2 ^ k) m i.
+Proof.
+  intros H1 H2. unfold cell, mset. cbn [andb N.eqb].
+  destruct (N.eqb_spec (N.land i (2 ^ k - 1)) (N.land b (2 ^ k - 1))) as [E|E]; [|reflexivity].
+  exfalso. revert E. apply slot_neq; assumption.
+Qed.
+
+Lemma perm_push (gt l gp : list N) v :
+  Permutation (gt ++ l) gp -> Permutation (gt ++ l ++ [v]) (gp ++ [v]).
+Proof. intros H. rewrite app_assoc. apply Permutation_app_tail. exact H. Qed.
+
+Lemma perm_take_last (gt l gp : list N) x :
+  Permutation (gt ++ l ++ [x]) gp -> Permutation ((gt ++ [x]) ++ l) gp.
+Proof.
+  intros H. rewrite <- H. rewrite <- app_assoc. apply Permutation_app_head. apply Permutation_app_comm.
+Qed.
+
+Lemma perm_take_first (gt l gp : list N) x :
+  Permutation (gt ++ x :: l) gp -> Permutation ((gt ++ [x]) ++ l) gp.
+Proof. intros H. rewrite <- app_assoc. exact H. Qed.
+
+Lemma le_lbot B p : B <= lbot B p.
+Proof. unfold lbot. destruct (in_pop_tail p); lia. Qed.
+
+Lemma plen_app st v : N.of_nat (length (g_pushed st ++ [v])) = plen st + 1.
+Proof. unfold plen. rewrite app_length. cbn [length]. lia. Qed.
+
+(** * 6. Every step preserves the invariant (as long as fewer than 2^62 pushes completed) *)
+
+Ltac pc_only HI Hp :=
+  apply inv_step_pc;
+  [ exact HI
+  | intros Hne; try exact I; try (exfalso; apply Hne; reflexivity)
+  | rewrite Hp; reflexivity
+  | intros _; cbn [owner_ok]
+  | cbn [thief_ok] ].
+
+Ltac gen_step HI Hp p :=
+  apply inv_step_gen with (po' := p);
+  [ exact HI
+  | intros Hne; try exact I; try (exfalso; apply Hne; reflexivity)
+  | rewrite ?upd_same; reflexivity
+  | .. ];
+  unfold lbot; rewrite ?Hp;
+  cbn [top bottom mem set_top set_bottom set_mem fst snd in_pop_tail owner_ok thief_ok].
+
+Lemma step_inv k c st a st' es :
+  c = 2 ^ k -> plen st < 2 ^ 62 -> Inv c st ->
+  step (Fixed c) st a = Some (st', es) -> Inv c st'.
+Proof.
+  intros Hc HP HI Hst.
+  pose proof (i_T_le _ _ HI) as HTle. pose proof (i_cap _ _ HI) as Hcap.
+  pose proof (i_P _ _ HI) as HPl. pose proof (i_opc _ _ HI) as Hopc.
+  pose proof (i_cons _ _ HI) as Hcons. unfold abs in Hcons.
+  pose proof (le_lbot (bottom (sh st)) (th st owner)) as HBl.
+  unfold plen in HP, HPl.
+  unfold step, is_growing, init_cap, slot in Hst.
+  destruct a as [t o|t].
+  - destruct (th st t) eqn:Hp; try discriminate.
+    destruct (match o with OSteal => true | _ => (t =? owner)%nat end) eqn:Ho; [|discriminate].
+    inversion Hst; subst st' es; clear Hst.
+    pc_only HI Hp; auto.
+    destruct o; cbn; auto; apply Nat.eqb_eq in Ho; contradiction.
+  - pose proof (i_tpc _ _ HI t) as Htpc.
+    assert (Hown : ~ thief_pc (th st t) -> t = owner).
+    { intros Hn. destruct (Nat.eq_dec t owner); [auto|]. exfalso; apply Hn, (i_own _ _ HI); auto. }
+    destruct (th st t) eqn:Hp; try discriminate;
+      try (assert (t = owner) by (apply Hown; cbn; tauto); subst t; rewrite Hp in *;
+           unfold lbot in HTle, Hcap, HPl, Hcons; cbn [owner_ok in_pop_tail thief_ok] in * );
+      try contradiction; cbn [thief_ok] in Htpc.
+    + (* Begin *)
+      destruct o; cbn [opcode] in Hst; inversion Hst; subst st' es; clear Hst.
+      * assert (t = owner) by (apply Hown; cbn; tauto). subst t. pc_only HI Hp; auto.
+      * assert (t = owner) by (apply Hown; cbn; tauto). subst t. pc_only HI Hp; auto.
+      * pc_only HI Hp; auto.
+    + (* Pu1 *)
+      inversion Hst; subst st' es; clear Hst. pc_only HI Hp; auto.
+    + (* Pu2 *)
+      destruct (N.leb_spec c (wsub 64 b (top (sh st)))) as [L|L];
+        inversion Hst; subst st' es; clear Hst; pc_only HI Hp; auto.
+      rewrite wsub_le in L by lia. lia.
+    + (* Pu5 *)
+      inversion Hst; subst st' es; clear Hst.
+      destruct Hopc as [-> Hb].
+      gen_step HI Hp (Pu6 v (bottom (sh st))); try lia.
+      * intros _ HT. split; [exact HT|]. subst c. apply cell_set_other; lia.
+      * split; [reflexivity|split;[exact Hb|apply cell_set_same]].
+      * erewrite map_ext_in; [exact Hcons|]. intros i Hi. apply index_range_In in Hi.
+        subst c. apply cell_set_other; lia.
+    + (* Pu6 *)
+      inversion Hst; subst st' es; clear Hst.
+      destruct Hopc as (-> & Hb & Hv).
+      rewrite wadd1 by lia.
+      gen_step HI Hp Idle; try rewrite plen_app; unfold plen; try lia.
+      * rewrite index_range_snoc by lia. rewrite map_app. cbn [map]. rewrite Hv.
+        apply perm_push. exact Hcons.
+    + (* Po1 *)
+      inversion Hst; subst st' es; clear Hst. pc_only HI Hp; auto.
+    + (* Po2 *)
+      destruct (N.eqb_spec b (top (sh st))) as [E|E];
+        inversion Hst; subst st' es; clear Hst; pc_only HI Hp; auto.
+      lia.
+    + (* Po3 *)
+      inversion Hst; subst st' es; clear Hst.
+      destruct Hopc as (-> & Hb).
+      rewrite wsub_le by lia.
+      gen_step HI Hp (Po5 (bottom (sh st) - 1) c); try lia; try exact I.
+      replace (bottom (sh st) - 1 + 1) with (bottom (sh st)) by lia. exact Hcons.
+    + (* Po5 *)
+      inversion Hst; subst st' es; clear Hst. pc_only HI Hp; auto.
+    + (* Po6 *)
+      destruct Hopc as (-> & Hx).
+      destruct (N.ltb_spec (top (sh st)) (bottom (sh st))) as [L|L].
+      * inversion Hst; subst st' es; clear Hst.
+        gen_step HI Hp Idle; try lia; try exact I.
+        apply perm_take_last. rewrite index_range_snoc, map_app in Hcons by lia.
+        cbn [map] in Hcons. rewrite <- Hx in Hcons. exact Hcons.
+      * destruct (N.eqb_spec (bottom (sh st)) (top (sh st))) as [E|E];
+          inversion Hst; subst st' es; clear Hst; pc_only HI Hp; auto; lia.
+    + (* Po7 *)
+      destruct Hopc as (-> & Hx & -> & Ht).
+      destruct (N.eqb_spec (top (sh st)) (bottom (sh st))) as [E|E];
+        inversion Hst; subst st' es; clear Hst.
+      * rewrite wadd1 by lia.
+        gen_step HI Hp (Po8 (bottom (sh st) + 1) (Some x)); try lia; try exact I.
+        apply perm_take_first. rewrite E in *.
+        rewrite index_range_cons in Hcons by lia.
+        rewrite index_range_nil in * by lia. cbn [map] in *. rewrite Hx. exact Hcons.
+      * pc_only HI Hp; auto; lia.
+    + (* Po8 *)
+      inversion Hst; subst st' es; clear Hst.
+      destruct Hopc as (-> & Ht).
+      gen_step HI Hp Idle; try lia; try exact I.
+      exact Hcons.
+    + (* St1 *)
+      inversion Hst; subst st' es; clear Hst. pc_only HI Hp; auto.
+      lia.
+    + (* St2 *)
+      destruct (sdiff_pos (bottom (sh st)) t0) eqn:D;
+        inversion Hst; subst st' es; clear Hst; pc_only HI Hp; auto.
+      apply sdiff_pos_lt in D; [|lia|lia]. split; [exact Htpc|]. intros _. lia.
+    + (* St4 *)
+      inversion Hst; subst st' es; clear Hst. pc_only HI Hp; auto.
+      destruct Htpc as [H1 H2]. split; [exact H1|]. intros E. split; [auto|reflexivity].
+    + (* St5 *)
+      destruct Htpc as [H1 H2].
+      destruct (N.eqb_spec (top (sh st)) t0) as [E|E];
+        inversion Hst; subst st' es; clear Hst.
+      * subst t0. destruct (H2 eq_refl) as [H3 H4]. rewrite wadd1 by lia.
+        assert (HL : lbot (bottom (sh st)) (upd (th st) t Idle owner) = lbot (bottom (sh st)) (th st owner)).
+        { unfold upd. destruct (Nat.eqb_spec owner t) as [<-|Hne]; [|reflexivity]. rewrite Hp. reflexivity. }
+        apply inv_step_gen with (po' := upd (th st) t Idle owner);
+          cbn [top bottom mem set_top]; rewrite ?HL;
+          try exact HI; try exact I; try (intros _; exact I); try reflexivity; try lia.
+        { unfold upd. destruct (Nat.eqb_spec owner t); [exact I|].
+          eapply owner_ok_mono; [exact Hopc|lia|lia]. }
+        { apply perm_take_first. rewrite index_range_cons in Hcons by lia.
+          cbn [map] in Hcons. rewrite <- H4 in Hcons. exact Hcons. }
+      * pc_only HI Hp; auto.
+Qed.
+
+(** * 7. Initial state, monotonicity of the ghost history and of [top] *)
+
+Lemma init_inv c : Inv c (init (Fixed c)).
+Proof.
+  constructor; unfold init, abs, plen, lbot;
+    cbn [sh th top bottom mem g_pushed g_taken in_pop_tail owner_ok thief_ok thief_pc length app];
+    auto; try lia.
+  all: try (rewrite index_range_nil by lia; constructor).
+Qed.
+
+Ltac case_split H :=
+  repeat match type of H with
+         | context [match ?x with _ => _ end] => destruct x eqn:?
+         end.
+
+Lemma step_pushed c st a st' es :
+  step (Fixed c) st a = Some (st', es) -> exists l, g_pushed st' = g_pushed st ++ l.
+Proof.
+  intros H. unfold step, is_growing in H.
+  destruct a as [t o|t]; destruct (th st t); try discriminate;
+    case_split H; try discriminate; inversion H; cbn [g_pushed];
+    first [exists []; symmetry; apply app_nil_r | eexists; reflexivity].
+Qed.
+
+Lemma step_plen_mono c st a st' es :
+  step (Fixed c) st a = Some (st', es) -> plen st <= plen st'.
+Proof.
+  intros H. destruct (step_pushed _ _ _ _ _ H) as [l E]. unfold plen. rewrite E, app_length. lia.
+Qed.
+
+Lemma step_top_mono k c st a st' es :
+  c = 2 ^ k -> plen st < 2 ^ 62 -> Inv c st ->
+  step (Fixed c) st a = Some (st', es) -> top (sh st) <= top (sh st').
+Proof.
+  intros Hc HP HI H.
+  pose proof (i_T_le _ _ HI) as HTle. pose proof (i_P _ _ HI) as HPl. unfold plen in *.
+  unfold step, is_growing in H.
+  destruct a as [t o|t]; destruct (th st t); try discriminate;
+    case_split H; try discriminate; inversion H; cbn [sh top set_top set_bottom set_mem set_cap set_buckets];
+    try lia.
+  all: match goal with E : (top _ =? ?x) = true |- _ => apply N.eqb_eq in E; subst x end.
+  all: rewrite wadd1 by lia; lia.
+Qed.
+
+(** * 8. Main theorems
+
+    Assumption of all theorems below: the container is [Fixed c] with [c = 2^k], the state is
+    reachable by ANY interleaving of any number of threads (only thread [owner] starts
+    push/pop -- enforced by [Start] of the model), and fewer than 2^62 calls of try_push have
+    completed so far ([plen st < 2^62]; [g_pushed] only grows, so the bound then holds in every
+    earlier state of the run as well, and no 64-bit counter has wrapped). *)
+
+Theorem chase_fixed_inv : forall k c st,
+  c = 2 ^ k ->
+  reach (init (Fixed c)) (step (Fixed c)) st ->
+  plen st < 2 ^ 62 ->
+  Inv c st.
+Proof.
+  intros k c st Hc Hr. induction Hr as [|s a s' es Hr IH Hst]; intros HP.
+  - apply init_inv.
+  - pose proof (step_plen_mono _ _ _ _ _ Hst) as Hm.
+    eapply step_inv; [exact Hc| |apply IH|exact Hst]; lia.
+Qed.
+
+(** (a) structural invariant, spelled out *)
+Theorem chase_fixed_structural : forall k c st,
+  c = 2 ^ k -> 1 <= k <= 30 ->
+  reach (init (Fixed c)) (step (Fixed c)) st ->
+  plen st < 2 ^ 62 ->
+  let T := top (sh st) in
+  let B := bottom (sh st) in
+  let Bl := lbot B (th st owner) in
+  (* only the owner runs try_push / try_pop *)
+  (forall t, t <> owner -> thief_pc (th st t)) /\
+  (* bounds: top <= logical bottom <= top + capacity; bottom is the logical bottom except in the
+     tail of try_pop where it is one less; no counter exceeds the number of completed pushes *)
+  T <= Bl /\ Bl <= T + c /\ B <= Bl /\ Bl <= B + 1 /\ Bl <= plen st /\
+  (in_pop_tail (th st owner) = false -> T <= B /\ B - T <= c) /\
+  (* locals of the owner and of every thread inside try_steal *)
+  owner_ok c T B (cell c (mem (sh st))) (th st owner) /\
+  (forall t, thief_ok T Bl (cell c (mem (sh st))) (th st t)).
+Proof.
+  intros k c st Hc _ Hr HP T B Bl.
+  pose proof (chase_fixed_inv k c st Hc Hr HP) as HI.
+  pose proof (i_T_le _ _ HI). pose proof (i_cap _ _ HI). pose proof (i_P _ _ HI).
+  fold T B Bl in H, H0, H1.
+  assert (B <= Bl /\ Bl <= B + 1) as [? ?] by (unfold Bl, lbot; destruct (in_pop_tail _); lia).
+  repeat split; auto.
+  - apply (i_own _ _ HI).
+  - unfold Bl, lbot in *. rewrite H4 in *. lia.
+  - unfold Bl, lbot in *. rewrite H4 in *. lia.
+  - apply (i_opc _ _ HI).
+  - apply (i_tpc _ _ HI).
+Qed.
+
+(** [top] never decreases along a run *)
+Theorem chase_fixed_top_monotone : forall k c st a st' es,
+  c = 2 ^ k -> 1 <= k <= 30 ->
+  reach (init (Fixed c)) (step (Fixed c)) st ->
+  plen st < 2 ^ 62 ->
+  step (Fixed c) st a = Some (st', es) ->
+  top (sh st) <= top (sh st').
+Proof.
+  intros k c st a st' es Hc _ Hr HP Hst.
+  eapply step_top_mono; eauto. eapply chase_fixed_inv; eauto.
+Qed.
+
+(** (b) thief-read lemma: a thread about to execute the CAS of try_steal with expected value
+    [t] and loaded element [x]: if [top] still equals [t] (i.e. the CAS will succeed), then index
+    [t] is inside the abstract deque and [x] is the element currently stored at index [t]. *)
+Theorem chase_fixed_thief_read : forall k c st th_id t x,
+  c = 2 ^ k -> 1 <= k <= 30 ->
+  reach (init (Fixed c)) (step (Fixed c)) st ->
+  plen st < 2 ^ 62 ->
+  th st th_id = St5 t x ->
+  t <= top (sh st) /\
+  (top (sh st) = t ->
+   t < lbot (bottom (sh st)) (th st owner) /\ x = mem (sh st) 0 (N.land t (c - 1))).
+Proof.
+  intros k c st i t x Hc _ Hr HP Hp.
+  pose proof (i_tpc _ _ (chase_fixed_inv k c st Hc Hr HP) i) as H. rewrite Hp in H.
+  cbn [thief_ok] in H. destruct H as [H1 H2]. split; [exact H1|]. intros E. symmetry in E.
+  apply H2 in E. exact E.
+Qed.
+
+(** (c) conservation: handed-out values + abstract content = accepted values, as multisets *)
+Theorem chase_fixed_conservation : forall k c st,
+  c = 2 ^ k -> 1 <= k <= 30 ->
+  reach (init (Fixed c)) (step (Fixed c)) st ->
+  plen st < 2 ^ 62 ->
+  Permutation (g_taken st ++ abs c st) (g_pushed st).
+Proof.
+  intros k c st Hc _ Hr HP. apply (i_cons _ _ (chase_fixed_inv k c st Hc Hr HP)).
+Qed.
+
+(** at a quiescent state the abstract content is exactly the live window [top, bottom) *)
+Lemma abs_quiescent : forall c st, (forall t, th st t = Idle) -> abs c st = live st c.
+Proof.
+  intros c st Hq. unfold abs, live, lbot. rewrite Hq. reflexivity.
+Qed.
+
+Corollary chase_fixed_conservation_quiescent : forall k c st,
+  c = 2 ^ k -> 1 <= k <= 30 ->
+  reach (init (Fixed c)) (step (Fixed c)) st ->
+  plen st < 2 ^ 62 ->
+  (forall t, th st t = Idle) ->
+  Permutation (g_taken st ++ live st c) (g_pushed st).
+Proof.
+  intros k c st Hc Hk Hr HP Hq. rewrite <- abs_quiescent by exact Hq.
+  apply (chase_fixed_conservation k); assumption.
+Qed.
+
+(** consequences: nothing is handed out that was not pushed; if the pushed values are pairwise
+    distinct, nothing is handed out twice and nothing handed out is still in the deque *)
+Corollary chase_fixed_taken_incl : forall k c st x,
+  c = 2 ^ k -> 1 <= k <= 30 ->
+  reach (init (Fixed c)) (step (Fixed c)) st ->
+  plen st < 2 ^ 62 ->
+  In x (g_taken st) -> In x (g_pushed st).
+Proof.
+  intros k c st x Hc Hk Hr HP Hin.
+  eapply Permutation_in; [apply (chase_fixed_conservation k); eassumption|].
+  apply in_or_app. left. exact Hin.
+Qed.
+
+Lemma NoDup_app_split (A : Type) (l l' : list A) :
+  NoDup (l ++ l') -> NoDup l /\ NoDup l' /\ (forall x, In x l -> ~ In x l').
+Proof.
+  induction l as [|a l IH]; cbn [app]; intros H.
+  - split; [constructor|]. split; [exact H|]. intros x [].
+  - inversion H as [|? ? Hn Hd]; subst. destruct (IH Hd) as (I1 & I2 & I3).
+    split; [|split; [exact I2|]].
+    + constructor; [|exact I1]. intros Hin. apply Hn. apply in_or_app. left. exact Hin.
+    + intros x [->|Hx] Hx'; [apply Hn; apply in_or_app; right; exact Hx'|exact (I3 x Hx Hx')].
+Qed.
+
+Corollary chase_fixed_no_duplicate : forall k c st,
+  c = 2 ^ k -> 1 <= k <= 30 ->
+  reach (init (Fixed c)) (step (Fixed c)) st ->
+  plen st < 2 ^ 62 ->
+  NoDup (g_pushed st) ->
+  NoDup (g_taken st) /\ NoDup (abs c st) /\ (forall x, In x (g_taken st) -> ~ In x (abs c st)).
+Proof.
+  intros k c st Hc Hk Hr HP Hnd.
+  pose proof (chase_fixed_conservation k c st Hc Hk Hr HP) as HC.
+  apply Permutation_sym in HC. apply NoDup_app_split. exact (Permutation_NoDup HC Hnd).
+Qed.
+
+(** number of elements: |taken| + (logical bottom - top) = |pushed| *)
+Corollary chase_fixed_count : forall k c st,
+  c = 2 ^ k -> 1 <= k <= 30 ->
+  reach (init (Fixed c)) (step (Fixed c)) st ->
+  plen st < 2 ^ 62 ->
+  N.of_nat (length (g_taken st)) + (lbot (bottom (sh st)) (th st owner) - top (sh st)) = plen st.
+Proof.
+  intros k c st Hc Hk Hr HP.
+  pose proof (Permutation_length (chase_fixed_conservation k c st Hc Hk Hr HP)) as H.
+  unfold abs in H. rewrite app_length, map_length, index_range_length in H. unfold plen. lia.
 Qed.
